@@ -59,6 +59,16 @@ type baseState struct {
 	retentionFloor *pruner.RetentionFloor
 }
 
+// filterWrite wraps the result of a database write whose callback updated the running event
+// filter: if the write did not commit, the filter's memory copy is discarded (it is rebuilt
+// from disk on next use) so that it never disagrees with the database.
+func (b *baseState) filterWrite(err error) error {
+	if err != nil {
+		b.runningFilter.Invalidate()
+	}
+	return err
+}
+
 func New(
 	database db.KeyValueStore,
 	runningFilter *core.RunningEventFilter,
